@@ -27,7 +27,7 @@ import Thanos.Model.LazyReader
     script := "-" | op(,op)*      op := n (Next) | s<x> (Seek(x)) | d (call Next until false)
     trace  := one item per op: t<At> | f | D<count>/<sum mod 2^64>/<Σ (i+1)·v_i mod 2^64>[=v.v.v if count ≤ 40]
     pc.enc <list>                              -> hex of the diff+uvarint payload | unsorted
-    pc.rt  dvs|dss <list> <chunk lengths> <script>
+    pc.rt  dvs|dss|dsp <list> <chunk lengths> <script>
                                                -> <payload length>/<fnv1a-32 of payload> <trace> e<0|1>   | unsorted | bad-chunks
          (encode with the codec, decode, run the script; the chunk lengths are those of the
           real snappy stream — third-party input — and must add up to the payload length)
@@ -224,7 +224,7 @@ def runCodec (codec : String) (chunks : List (List Nat)) (cmds : List Cmd) : Opt
   if codec = "dvs" then
     let (t, s) := runCmds plainOps cmds ⟨0, chunks.flatten, false⟩
     some (joinWith "," t ++ (if s.err then " e1" else " e0"))
-  else if codec = "dss" then
+  else if codec = "dss" ∨ codec = "dsp" then
     some (joinWith "," (runCmds streamOps cmds ⟨0, [], chunks⟩).1 ++ " e0")
   else none
 
